@@ -164,6 +164,13 @@ func propC15(w *World, r *Report, tier string) {
 	r.Expect("safe.entries", 2)
 	r.Expect("safe.loop", 5)
 	r.Expect("safe.stdlib-pre", 8)
+	// list parsers: no item delivered with a field unread, no item state carried between iterations
+	checkParserSeqRules(w, r, "nasType", func(fn *ssa.Function) bool {
+		file := w.Fset.Position(fn.Pos()).Filename
+		return !strings.HasSuffix(file, "qos_rule.go") && !strings.HasSuffix(file, "qos_flow_desc.go")
+	})
+	r.Expect("seq.must-read", 5)
+	r.Expect("seq.fresh-elem", 6)
 	// factories
 	for _, fc := range []struct{ factory, idMethod, iface string; min int }{
 		{"newPacketFilterComponent", "Type", "PacketFilterComponent", 18},
